@@ -12,6 +12,8 @@
 """
 
 import ast
+
+from ..cfg import ENTRY as ENTRY_
 import itertools
 
 from ..flow import Flow
@@ -115,6 +117,72 @@ def eval_body(body, env, inputs, ivar, out_holder, elem=None):
             raise ValueError("statement %s" % type(st).__name__)
 
 
+def record_read_whole(ctx, chk, rule):
+    """Zero expected: the classification reads each gap-free record whole.  `fetchmany`, or a SELECT with LIMIT / OFFSET
+    parameters inside a loop, hands the record to the run detection in pieces: a run (storm, rise, interstorm interval)
+    that straddles a piece boundary is recorded as two, or loses the sample left alone on one side."""
+    m = ctx.repo.modules.get("classify")
+    n = 0
+    hits = []
+    for q, fi in sorted(m.functions.items()) if m is not None else []:
+        n += 1
+        for c in ast.walk(fi.node):
+            if isinstance(c, ast.Call) and isinstance(c.func, ast.Attribute) and c.func.attr == "fetchmany":
+                hits.append((fi, c, "rows are fetched %s at a time" % (ast.unparse(c.args[0])[:30] if c.args else "arraysize")))
+        for s_ in ctx.sites_in(fi):
+            st = s_.stmt
+            if st is not None and st.kind == "select" and getattr(st, "limit", None) is not None and any(x[0] == "param" for x in _walk(st.limit)):
+                hits.append((fi, s_.call, "the series query is cut by a LIMIT bound to a parameter"))
+    for fi, c, txt in hits:
+        chk.ob(rule, False, where_of(fi, c), "%s: %s" % (ast.unparse(c)[:50], txt),
+               "runs are detected over the whole gap-free record",
+               key="classify|record-in-pieces|%s" % fi.qualname, local=True,
+               why="an interstorm interval (or storm, or rise) in progress at a piece boundary is recorded as two abutting intervals, or shortened by the sample left alone on one side: recorded intervals are not maximal")
+    chk.count("classify functions scanned for piecewise reading of a record", n)
+    ctl = ast.parse("rows = cur.fetchmany(n)")
+    if not any(isinstance(c, ast.Call) and isinstance(c.func, ast.Attribute) and c.func.attr == "fetchmany" for c in ast.walk(ctl)):
+        chk.errors.append("%s positive control (fetchmany) did not match" % rule)
+
+
+def _walk(e):
+    from ..sqlmodel import walk_expr
+    try:
+        return list(walk_expr(e))
+    except Exception:
+        return []
+
+
+def extra_threshold_arguments(ctx, chk, rule):
+    """classify_interstorms compares its series with one threshold argument (its third parameter).  An order comparison
+    against another argument of the function is a second threshold; named under `rule` (shared as C01.O7: rises and
+    interstorm intervals share zeta_interval's primary key, so they must be cut by the same jump threshold)."""
+    from ..flow import Flow as _Flow
+    g = ctx.func("classify.classify_interstorms")
+    if len(g.params) < 3:
+        chk.indeterminate(rule, where_of(g, g.node), "signature of classify_interstorms changed")
+        return
+    thr = g.params[2]
+    gflow = _Flow.of(g)
+    n = 0
+    for c in ast.walk(g.node):
+        if isinstance(c, ast.Compare) and len(c.ops) == 1 and isinstance(c.ops[0], (ast.Gt, ast.GtE, ast.Lt, ast.LtE)):
+            n += 1
+            for x, other in ((c.left, c.comparators[0]), (c.comparators[0], c.left)):
+                # the other side is a series: its definition takes differences / shifted slices of the record (a length, a
+                # count or a block size compared with an argument is not a threshold on the series)
+                try:
+                    otxt = ast.unparse(gflow.expand(other))
+                except Exception:
+                    otxt = ""
+                is_series = "diff(" in otxt or "[1:]" in otxt or "[:-1]" in otxt
+                if is_series and isinstance(x, ast.Name) and x.id in g.params[3:] and ENTRY_ in (gflow.reaching_defs(x) or set()):
+                    chk.ob(rule, False, where_of(g, c), "`%s`: a series of classify_interstorms is compared with the argument %s, a second threshold beside %s" % (ast.unparse(c)[:60], x.id, thr),
+                           "one jump threshold for rises and for interstorm intervals",
+                           key="classify_interstorms|second-threshold|%s" % x.id, local=True,
+                           why="an interstorm interval that runs through an increment above the jump threshold can start on the same sample as a matched rise: both are inserted into zeta_interval, whose primary key is start_epoch, and the classification aborts with IntegrityError")
+    chk.count("order comparisons of classify_interstorms read for a second threshold", n)
+
+
 def run(ctx, chk, tier="quick"):
     chk.explanation = (
         "Finite-skeleton extraction of the mystery-jump flag loop (a 2-state machine evaluated on all "
@@ -126,6 +194,7 @@ def run(ctx, chk, tier="quick"):
     chk.assumptions = ["get_true_interval_masks labels maximal runs (numpy cumsum labelling; leading-run case decided under C01.O3)"]
     from ..sqlrules import conflict_clauses as _conflict_clauses
     _conflict_clauses(ctx, chk, "C04.O4", ("classify",), "classify", 'a second classification with another jump threshold keeps interstorm intervals of the first run beside the new thresholds row: recorded intervals are no longer clean under the stored threshold')
+    record_read_whole(ctx, chk, "C04.O3")
     # every data interval reaches the interstorm classification: the loop over them is not cut short by its own body
     from ..typestate import lazy_cursor_loops
     lazy_cursor_loops(ctx, chk, "C04.O5", ("classify",), why="execute on the iterated cursor ends the loop over the data intervals after the first: later records get no flags and no interstorm intervals")
@@ -279,7 +348,14 @@ def run(ctx, chk, tier="quick"):
                 seen += 1
             return isinstance(n, ast.Name) and n.id == thr
 
-        if r is None or is_thr(l) == is_thr(r):
+        other_par = next((x for x in (l, r) if isinstance(x, ast.Name) and x.id in g.params and x.id != thr
+                          and ENTRY_ in (gflow.reaching_defs(x) or set())), None) if r is not None else None
+        if other_par is not None and not is_thr(l) and not is_thr(r):
+            chk.ob("C04.O2", False, where_of(g, jump_cmp), "the jumps that end an interstorm interval are `%s`: taken against the argument %s, not against the jump threshold %s" % (ast.unparse(jump_cmp)[:60], other_par.id, thr),
+                   "one jump threshold: the increments that end interstorm intervals are those above the rising jump threshold stored for the dataset",
+                   key="classify_interstorms|jump-threshold-argument", local=True,
+                   why="with a second threshold above the jump threshold an interstorm interval keeps running through increments that start a rise: recorded intervals contain increments above the stored jump threshold, and an interstorm interval and a matched rise can start on the same sample (zeta_interval's primary key then aborts the classification)")
+        elif r is None or is_thr(l) == is_thr(r):
             chk.indeterminate("C04.O2", where_of(g, jump_cmp), "jump comparison does not compare one rate vector with the threshold: %s" % ast.unparse(jump_cmp)[:80])
         else:
             rates_node = l if is_thr(r) else r
